@@ -539,6 +539,10 @@ def run_check(prop, tier, seed):
             print("NONDETERMINISTIC", n)
         if rc != 1:
             rc = 2
+    # a violation that passed the gate (two identical fresh-process replays) is reported as such even if
+    # other candidates of the same batch did not reproduce
+    if violations:
+        rc = 1
     write_evidence(prop, tier, seed, cfg, runs, violations, known_hits, explore_s, time.time() - t0, crashes=crashes,
                    note=("%d in-process re-executions did not reproduce" % len(nondet)) if nondet_pending else None)
     return rc
